@@ -1,11 +1,10 @@
-mod util;
-mod c17;
+//! `bsv <sub-command> [--seed S] [--n N] [--out DIR] [--replay FILE] ...`
+//! Sub-commands are the files of src/props/ (see build.rs).
+pub mod util;
+mod props { include!(concat!(env!("OUT_DIR"), "/dispatch.rs")); }
 
 fn main() {
     let args: Vec<String> = std::env::args().skip(1).collect();
-    let Some(cmd) = args.first() else { eprintln!("usage: bsv <cmd> [--seed S] [--n N] [--out DIR] ..."); std::process::exit(2) };
-    match cmd.as_str() {
-        "c17" => c17::run(&args[1..]),
-        other => { eprintln!("unknown command {other}"); std::process::exit(2) }
-    }
+    let Some(cmd) = args.first() else { eprintln!("usage: bsv <{}> ...", props::COMMANDS.join("|")); std::process::exit(2) };
+    if !props::dispatch(cmd, &args[1..]) { eprintln!("unknown command {cmd}; known: {}", props::COMMANDS.join(" ")); std::process::exit(2) }
 }
